@@ -533,7 +533,7 @@ def inventory_cli(inputs: None | list[str] = None):
         otypes=args.object_type,
         targets=args.name,
     ):
-        if args.loc and not match_with_wildcard(match.loc, args.loc):
+        if args.loc is not None and not match_with_wildcard(match.loc, args.loc):
             continue
         filtered["objects"].setdefault(match.domain, {}).setdefault(match.otype, {})[
             match.name
